@@ -176,6 +176,26 @@ fn mres<T>(r: Result<Result<T, elf::ParseError>, String>, f: impl FnOnce(T) -> V
     }
 }
 
+/// n caller-made section_data reads of n distinct ranges (spec/Bulk.tla); one event, no I/O log
+fn stream_bulk<E: EndianParse>(es: &mut ElfStream<E, ScriptedReader>, ctl: &Rc<RefCell<Ctl>>, op: &Value) -> Value {
+    let n = op["n"].as_u64().unwrap_or(0);
+    let m = op["m"].as_u64().unwrap_or(1).max(1);
+    let (r, a, mx) = measured(|| {
+        let (mut nok, mut sum) = (0u64, 0u64);
+        for k in 0..n {
+            let sh = elf::section::SectionHeader { sh_name: 0, sh_type: 1, sh_flags: 0, sh_addr: 0, sh_offset: k % m, sh_size: 1 + k / m,
+                                                   sh_link: 0, sh_info: 0, sh_addralign: 1, sh_entsize: 0 };
+            if let Ok((d, _)) = es.section_data(&sh) {
+                nok += 1;
+                sum = (sum + d.iter().map(|b| *b as u64).sum::<u64>()) % 65521;
+            }
+        }
+        (nok, sum)
+    });
+    let _ = take_io(ctl);
+    event(op, match r { Ok((nok, sum)) => json!({"out":"ok","nok":nok,"sum":sum}), Err(p) => panic_res(&p) }, a, mx)
+}
+
 fn stream_q<E: EndianParse>(es: &mut ElfStream<E, ScriptedReader>, ctl: &Rc<RefCell<Ctl>>, op: &Value) -> Value {
     let name = op["name"].as_str().unwrap_or("");
     match name {
@@ -303,6 +323,14 @@ pub fn stream_op(x: &mut Exec, op: &Value) -> Vec<Value> {
             ctl.borrow_mut().chunk = ch.to_string();
         }
     };
+    if op["op"] == "sbulk" {
+        return match &mut x.stream {
+            None => vec![event(op, json!({"out":"closed"}), 0, 0)],
+            Some(StreamSession::LE(s, c)) => vec![stream_bulk(s, c, op)],
+            Some(StreamSession::BE(s, c)) => vec![stream_bulk(s, c, op)],
+            Some(StreamSession::Any(s, c)) => vec![stream_bulk(s, c, op)],
+        };
+    }
     match &mut x.stream {
         None => vec![event(op, json!({"out":"closed"}), 0, 0)],
         Some(StreamSession::LE(s, c)) => { set_faults(c); vec![stream_q(s, c, op)] }
